@@ -10,6 +10,7 @@ structure DriverState where
   epochs : Epochs.State := []
   infl : Inflation.State := default
   ovote : OracleVotes.State := {}
+  tf : TF.State × TF.View := default
 
 def splitArgs (line : String) : List String :=
   (line.trimAscii.toString.splitOn " ").filter (· ≠ "")
@@ -24,6 +25,9 @@ def stepLine (st : DriverState) (line : String) : DriverState × String :=
   | "ovote" :: args =>
     let (s', out) := OracleVotes.step st.ovote args
     ({ st with ovote := s' }, out)
+  | "tf" :: args =>
+    let (s', out) := TF.step st.tf args
+    ({ st with tf := s' }, out)
   | "oracle" :: args => (st, Oracle.step args)
   | "infl" :: args =>
     let (s', out) := Inflation.step st.infl args
